@@ -230,6 +230,7 @@ var profC17 = profile{
 	// error paths log and render too: secrets must stay out of storage, logs and mail whichever backend call fails
 	faultPct: 10, faultKinds: []string{"generic", "generic", "notfound"},
 	jsonMangle: 6, // decode errors are logged too
+	badQuery:   4, badQueryForm: true,
 }
 
 func TestC17(t *testing.T) {
